@@ -18,11 +18,18 @@ LEVEL_TEXT = (
     "Tie to the code: the setters, get_localgrid and __getitem__ of basegrid.py are translated statement by statement "
     "(harness/translate/localgrid.py -> Gen/LocalGrid.lean, regenerated on every run) and proved equal to the hand model "
     "(gen_*_eq, genStep_eq_step), so the theorems hold for the generated text; the driver executes the generated "
-    "definitions, which are compared with the implementation on random operation histories for every grid class."
+    "definitions, which are compared with the implementation on random operation histories for every grid class. "
+    "Round 3: Grid.__init__ and LocalGrid.__init__ are translated as well (harness/translate/localgrid_ctor.py -> "
+    "Gen/LocalGridCtor.lean): what they accept, that the object holds exactly the given arrays, the index array and no "
+    "tree (gen_grid_init_spec, gen_localgrid_init_spec), that the base constructor is the init of the state machine "
+    "(gen_grid_init_eq) and that the return statement of the generated get_localgrid hands LocalGrid.__init__ arguments it "
+    "accepts in every reachable state (gen_localgrid_of_query, _inf); the keyword arguments of cKDTree / query_ball_point "
+    "(source literals, SciPy's signature defaults for the others) are regenerated as a constant and proved to select the "
+    "exact Euclidean non-periodic search (gen_tree_args_exact)."
 )
 TECHNIQUE = "Lean 4 proof (state-machine invariant over all op histories) + differential op histories + brute-force oracle"
-GEN = ["localgrid"]
-LEAN_MODULES = ["GridVerif.Props.C10", "GridVerif.Props.C10.Gen"]
+GEN = ["localgrid", "localgrid_ctor"]
+LEAN_MODULES = ["GridVerif.Props.C10", "GridVerif.Props.C10.Gen", "GridVerif.Props.C10.Ctor"]
 THEOREMS = [
     "GridVerif.C10.inv_init",
     "GridVerif.C10.inv_step",
@@ -56,6 +63,13 @@ THEOREMS = [
     "GridVerif.C10.genRun_eq_run",
     "GridVerif.C10.gen_inv_step",
     "GridVerif.C10.gen_localgrid_correct",
+    # round 3: the constructors behind a local grid (Gen/LocalGridCtor.lean) and the keyword arguments of the search
+    "GridVerif.C10.gen_grid_init_spec",
+    "GridVerif.C10.gen_localgrid_init_spec",
+    "GridVerif.C10.gen_grid_init_eq",
+    "GridVerif.C10.gen_localgrid_of_query",
+    "GridVerif.C10.gen_localgrid_of_query_inf",
+    "GridVerif.C10.gen_tree_args_exact",
 ]
 RULE = (
     "one evaluation = one operation (get_localgrid / points= / weights= / __getitem__) of a random history run on the "
@@ -63,17 +77,27 @@ RULE = (
     "index set); classes Grid (1-D array and (N,1..3)), OneDGrid, AtomGrid, MolGrid, UniformGrid, Tensor1DGrids, "
     "LocalGrid; radii 0 / tiny / inside / huge / inf and rejected ones; centres on a point, near, far; all index kinds. "
     "non-trivial = a history with at least one reassignment of points or weights between two queries (hash of the whole "
-    "history line)"
+    "history line). Round 3 adds scripted histories (harness/props/c10_ext.py): exact = dyadic grids (scaled 2^-40..2^40, "
+    "translated 2^10..2^20) with radii equal to / one ulp / 1e-10 / 1% / 100x around a point distance, 0.0, -0.0, 5e-324, "
+    "largest double, inf (radii whose double comparison d2 <= r*r is not the exact one are left out); special = identical "
+    "points, one-point grids, an atomic shell of radius 0, centres up to 1e150 away; handout = the caller edits the local "
+    "grid it was handed (in place / setters) and asks again, the handed-out grid lives through its own history; orders = every "
+    "sequence of <= 2 (thorough 3) operations of {query A, query B, inf query, points=, weights=, selection} on every class; "
+    "domain = both sides of the 1e-7 slack of OneDGrid.__init__ through __getitem__; ctor = the generated constructors on "
+    "every rank/length combination and the keyword arguments the neighbour search receives at run time"
 )
 TRUSTED_BASE = [
     "Lean 4.33 kernel; axioms propext, Classical.choice, Quot.sound only (audited per theorem)",
     "translator harness/translate/localgrid.py (Python AST -> Gen/LocalGrid.lean) and the vocabulary Model/LocalGridPy.lean it maps NumPy/SciPy expressions to; the generated definitions are executed by the driver and compared with the implementation on differential op histories",
     "hand model Model/LocalGrid.lean (proved equal to the generated definitions); the class dispatch (AtomGrid has no points setter, OneDGrid overrides __getitem__) and the constructors of the non-periodic classes remain hand-modelled",
-    "contract of scipy cKDTree.query_ball_point (= exactly the positions with distance <= r); NumPy indexing semantics as modelled",
+    "contract of scipy cKDTree.query_ball_point (= exactly the positions with distance <= r) for the keyword arguments pinned by gen_tree_args_exact (p = 2, eps = 0, boxsize None); NumPy indexing semantics as modelled",
+    "translator harness/translate/localgrid_ctor.py (Grid.__init__, LocalGrid.__init__ -> Gen/LocalGridCtor.lean) and its vocabulary Model/LocalGridCtor.lean (an array argument = its ndim and its entries along the first axis); executed by the driver (C10.ginit / C10.lginit) against the constructors on every rank/length combination",
 ]
 ASSUMPTIONS = [
     "reassignment = the points/weights setter with a new array; editing the stored array in place is outside (C19/C20)",
-    "ties at distance == radius under rounding are outside the claim (generated radii keep a relative margin 1e-7 from every point distance, exact zero distance excepted)",
+    "ties at distance == radius under rounding are outside the claim (random radii keep a relative margin 1e-7 from every point distance, exact zero distance excepted; the dyadic class of round 3 has radii equal to and one ulp around a distance and keeps exactly those whose double comparison d2 <= r*r agrees with exact rational arithmetic)",
+    "overflow is outside the model: a centre farther than ~1.3e154 from the grid makes the squared distance overflow and cKDTree raises ValueError (recorded as an observation by the oracle); generated centres stay within 1e150",
+    "an infinite-radius local grid shares its arrays with the parent (no copy): in-place edits of a handed-out local grid are generated for finite radii only (there the arrays are copies); for the infinite radius the caller uses the setters (recorded as an observation; aliasing is C19/C20)",
     "MolGrid.__getitem__ (atom selection) is another operation and is not part of the selection clause",
 ]
 
@@ -654,7 +678,13 @@ def corr(ctx: Ctx):
                          witness={"class": PATH[kind], "constructor": h.ctor})
         hs.append(h)
         lines.append(f"{head} {len(h.tokens)} " + " ".join(h.tokens))
-    answers = driver_batch(lines)
+    _compare(ctx, hs, lines, driver_batch(lines))
+    from . import c10_ext
+    c10_ext.corr(ctx, M)
+
+
+def _compare(ctx, hs, lines, answers):
+    """Implementation answers of the histories `hs` against the driver's answers to `lines`."""
     for h, line, ans in zip(hs, lines, answers):
         ctx.traces += 1
         outs = [o.strip() for o in ans[3:].split("|")] if ans.startswith("ok ") else None
@@ -730,7 +760,11 @@ def _brute_ball(pts, c, r):
     cc = list(np.atleast_1d(np.asarray(c, dtype=float)))
     if math.isinf(r):
         return list(range(len(rows)))
-    return [i for i, p in enumerate(rows) if math.sqrt(math.fsum((float(a) - float(b)) ** 2 for a, b in zip(p, cc))) <= r]
+    # exact rational arithmetic on the stored doubles (no overflow for far centres / huge radii, no rounding)
+    from fractions import Fraction
+    r2 = Fraction(float(r)) ** 2
+    cq = [Fraction(float(b)) for b in cc]
+    return [i for i, p in enumerate(rows) if sum((Fraction(float(a)) - b) ** 2 for a, b in zip(p, cq)) <= r2]
 
 
 QUERY_SNIP = """c, r = {c}, {r}
@@ -919,6 +953,8 @@ def oracle(ctx: Ctx, budget: str):
             else:
                 ik, idx, _ = _index(rng, n)
                 _check_getitem(ctx, kind, g, ik, idx, pre, path)
+    from . import c10_ext
+    c10_ext.oracle(ctx, M, budget)
 
 
 def oracle_at(ctx: Ctx, failure):
@@ -947,32 +983,39 @@ def oracle_at(ctx: Ctx, failure):
             body = ast.parse(line).body
         except SyntaxError:
             return
-        st = body[0] if len(body) == 1 else None
-        if isinstance(st, ast.Expr) and isinstance(st.value, ast.Call) and ast.unparse(st.value.func) == "g.get_localgrid" and len(st.value.args) == 2:
-            c, r = (eval(ast.unparse(a), ns) for a in st.value.args)
-            try:
-                ok_args = np.asarray(c).shape == np.asarray(g.points).shape[1:] and float(r) >= 0
-            except Exception:  # noqa: BLE001
-                ok_args = False
-            if ok_args and len(np.asarray(g.points)):
-                _check_query(ctx, kind, g, c, r, prev_pts, pre, path)
-            else:
+        # (one op of a scripted history may be several statements: the caller's edits of a local grid it was
+        #  handed, then the next call)
+        for st in body:
+            text = ast.unparse(st)
+            call = st.value if isinstance(st, (ast.Expr, ast.Assign)) else None
+            if isinstance(call, ast.Call) and ast.unparse(call.func) == "g.get_localgrid" and len(call.args) == 2:
+                c, r = (eval(ast.unparse(a), ns) for a in call.args)
                 try:
-                    g.get_localgrid(c, r)
+                    ok_args = np.asarray(c).shape == np.asarray(g.points).shape[1:] and float(r) >= 0
                 except Exception:  # noqa: BLE001
+                    ok_args = False
+                if ok_args and len(np.asarray(g.points)):
+                    lg = _check_query(ctx, kind, g, c, r, prev_pts, pre, path)
+                else:
+                    lg = None
+                    try:
+                        lg = g.get_localgrid(c, r)
+                    except Exception:  # noqa: BLE001
+                        pass
+                if isinstance(st, ast.Assign) and len(st.targets) == 1 and isinstance(st.targets[0], ast.Name):
+                    ns[st.targets[0].id] = lg
+            elif isinstance(st, ast.Expr) and isinstance(st.value, ast.Subscript) and ast.unparse(st.value.value) == "g":
+                idx = eval(ast.unparse(st.value.slice), ns)
+                if kind in ("grid", "grid1", "oned", "periodic"):
+                    _check_getitem(ctx, kind, g, type(idx).__name__, idx, pre, path)
+            else:
+                if "g.points" in text:
+                    prev_pts = np.array(g.points, copy=True)
+                try:
+                    exec(text, ns)
+                except Exception:  # noqa: BLE001 - rejected reassignment
                     pass
-        elif isinstance(st, ast.Expr) and isinstance(st.value, ast.Subscript) and ast.unparse(st.value.value) == "g":
-            idx = eval(ast.unparse(st.value.slice), ns)
-            if kind in ("grid", "grid1", "oned", "periodic"):
-                _check_getitem(ctx, kind, g, type(idx).__name__, idx, pre, path)
-        else:
-            if "points" in line:
-                prev_pts = np.array(g.points, copy=True)
-            try:
-                exec(line, ns)
-            except Exception:  # noqa: BLE001 - rejected reassignment
-                pass
-        pre.append(line)
+            pre.append(text)
 
 
 def _check_periodic_query(ctx, g, c, rng, pre, path, brute_images):
@@ -983,7 +1026,15 @@ def _check_periodic_query(ctx, g, c, rng, pre, path, brute_images):
     a = rv.reshape(len(np.atleast_1d(rv)) if rv.ndim > 1 else 1, -1)
     scale = float(np.linalg.norm(a, axis=1).min())
     r = rng.choice([0.0, 0.05, 0.3, 0.8, 1.7]) * scale
-    want, r = brute_images(pts, a, c, r, rng)
+    margin = 1.0
+    if rv.dtype != np.float64:
+        # (float32 / integer lattice vectors: the class computes its reciprocal vectors and the intervals of the
+        #  fractional coordinates in that precision — with wrap=True a query of radius ~1e-9 centred on a point then
+        #  misses the point itself.  That is C11's subject (reported there); the history clause of C10 is evaluated
+        #  with radii and margins above the float32 noise.)
+        r = max(r, 1e-3 * scale)
+        margin = 100.0
+    want, r = brute_images(pts, a, c, r, rng, margin=margin)
     snippet = (SNIP_HEAD + "\n".join(pre) + f"\nc, r = {_descr(c)}, {_descr(r)}\nlg = g.get_localgrid(c, r)\n"
                f"want = {sorted(i for i, _ in want)!r}  # parent index of every periodic image inside the sphere (brute force)\n"
                "assert sorted(map(int, lg.indices)) == want, f'indices {sorted(map(int, lg.indices))}, images inside the sphere have parents {want}'\n")
